@@ -319,6 +319,14 @@ func byteTask(t *task, res *result, addV func(viol), keysExec func(string) ([]st
 	run("x*", -1, X+"*", X+X, X+"a")
 	run("*x", -1, "*"+X, X+X, "a"+X)
 	run("?x", -1, "?"+X, X+X, "a"+X)
+	// a wildcard or a class next to an escape: the escaped byte is a literal wherever it stands
+	run("*\\x", -1, "*\\"+X, "a"+X, X+X, "a"+X+"a")
+	run("\\x*", -1, "\\"+X+"*", X+"a", X+X, "a"+X)
+	run("*\\x*", -1, "*\\"+X+"*", "a"+X+"a", X+X+X, "aa")
+	run("?\\x", -1, "?\\"+X, "a"+X, X+X)
+	run("[a]\\x", -1, "[a]\\"+X, "a"+X, X+X)
+	run("\\x**", -1, "\\"+X+"**", X+"a", X+"*a", X)
+	run("**\\x", -1, "**\\"+X, "a"+X, "*"+X, X)
 	for y := 0; y < 256; y++ {
 		Y := string([]byte{byte(y)})
 		run("[x-y]", y, "["+X+"-"+Y+"]")
@@ -463,7 +471,7 @@ func main() {
 		"max_subject_len":                 maxSub,
 		"keys_max_pattern_len":            keysPat,
 		"byte_pass_tasks":                 byteTasks,
-		"byte_pass":                       "for every byte x and every byte y (all 65536 pairs): patterns x, \\x, [x], [^x], [\\x], x*, *x, ?x, [x-y], [^x-y], [\\x-\\y], [x-\\y], [ax-y], xy, [xy] against the empty and every one-byte subject; [x-y] and [^x-y] also through KEYS on a keyspace of all 256 one-byte keys",
+		"byte_pass":                       "for every byte x and every byte y (all 65536 pairs): patterns x, \\x, [x], [^x], [\\x], x*, *x, ?x, *\\x, \\x*, *\\x*, ?\\x, [a]\\x, \\x**, **\\x, [x-y], [^x-y], [\\x-\\y], [x-\\y], [ax-y], xy, [xy] against the empty and every one-byte subject; [x-y] and [^x-y] also through KEYS on a keyspace of all 256 one-byte keys",
 		"rule":                            "every pattern up to the length bound over {a,b,*,?,[,],^,-,\\} against every subject up to the length bound over {a,b,c,-,],^}: util.PattenMatch vs an independent reference matcher of the documented grammar; then every pattern through KEYS on a keyspace holding all subjects of length<=2 and one expired key. Corners the grammar leaves open (empty class, '-' first/last in a class, reversed range, '^' not first, escaped range endpoint) are computed but excluded from the verdict",
 	}
 	os.Exit(rep.Finish(cov, []string{"reference matcher verif/model/glob.go encodes the grammar of the property statement"}))
